@@ -81,6 +81,7 @@ static uint8_t *vc_buf[3];
 static int vc_init_w[3], vc_init_h[3];
 static iter_flags_t vc_init_flags[3];
 static int vc_Bpp, vc_width;
+static int vc_geom_done, vc_aligned, vc_disjoint, vc_inside_heap;
 
 static void vc_touch (uint8_t *b, long n)
 {
@@ -123,6 +124,17 @@ _pixman_implementation_iter_init (pixman_implementation_t *imp, pixman_iter_t *i
     iter->write_back = vc_write_back;
     iter->fini = (pixman_iter_fini_t) 0;
     vc_touch (buffer, (long) width * Bpp);
+    if (k == 2)
+    {
+        /* all three buffers are known and still live (the stack buffer dies and the heap block is
+         * freed when general_composite_rect returns): evaluate the geometry now */
+        long wB = (long) width * Bpp;
+        vc_geom_done = 1;
+        vc_aligned = ((uintptr_t) vc_buf[0] & 15) == 0 && ((uintptr_t) vc_buf[1] & 15) == 0 && ((uintptr_t) vc_buf[2] & 15) == 0;
+        vc_disjoint = vc_buf[0] + wB <= vc_buf[1] && vc_buf[1] + wB <= vc_buf[2];
+        if (vc_nmalloc > 0 && vc_base)
+            vc_inside_heap = vc_buf[0] >= vc_base + vc_k && vc_buf[2] + wB <= vc_base + vc_k + vc_size;
+    }
 }
 
 static void vc_combine (pixman_implementation_t *imp, pixman_op_t op, uint32_t *dest, const uint32_t *src, const uint32_t *mask, int width)
@@ -140,19 +152,6 @@ _pixman_implementation_lookup_combiner (pixman_implementation_t *imp, pixman_op_
     return vc_combine;
 }
 
-#ifdef VH_REPLAY
-/* link-only stubs for the native replay (never executed) */
-#define VC_WEAK_ABORT(name) __attribute__ ((weak)) void name (void) { abort (); }
-VC_WEAK_ABORT (_pixman_implementation_create)
-VC_WEAK_ABORT (_pixman_setup_combiner_functions_32)
-VC_WEAK_ABORT (_pixman_setup_combiner_functions_float)
-VC_WEAK_ABORT (_pixman_bits_image_src_iter_init)
-VC_WEAK_ABORT (_pixman_bits_image_dest_iter_init)
-VC_WEAK_ABORT (_pixman_linear_gradient_iter_init)
-VC_WEAK_ABORT (_pixman_radial_gradient_iter_init)
-VC_WEAK_ABORT (_pixman_conical_gradient_iter_init)
-VC_WEAK_ABORT (_pixman_log_error)
-#endif
 
 static pixman_implementation_t vc_imp;
 static pixman_image_t vc_src, vc_mask, vc_dest;
@@ -228,10 +227,8 @@ void harness (void)
                   && (vc_init_flags[0] & (ITER_NARROW | ITER_WIDE)) == (vc_init_flags[1] & (ITER_NARROW | ITER_WIDE))
                   && (vc_init_flags[0] & (ITER_NARROW | ITER_WIDE)) == (vc_init_flags[2] & (ITER_NARROW | ITER_WIDE))
                   && ((vc_init_flags[0] & (ITER_NARROW | ITER_WIDE)) == ITER_NARROW || (vc_init_flags[0] & (ITER_NARROW | ITER_WIDE)) == ITER_WIDE));
-        VH_CHECK ("general.buffers_16_byte_aligned",
-                  ((uintptr_t) vc_buf[0] & 15) == 0 && ((uintptr_t) vc_buf[1] & 15) == 0 && ((uintptr_t) vc_buf[2] & 15) == 0);
-        VH_CHECK ("general.buffers_disjoint_in_order_src_mask_dest",
-                  vc_buf[0] + wB <= vc_buf[1] && vc_buf[1] + wB <= vc_buf[2]);
+        VH_CHECK ("general.buffers_16_byte_aligned", vc_geom_done && vc_aligned);
+        VH_CHECK ("general.buffers_disjoint_in_order_src_mask_dest", vc_geom_done && vc_disjoint);
         if (vc_nmalloc == 0)
         {
             VH_CHECK ("general.stack_buffer_used_only_if_worst_case_carving_fits", 3 * wB + 3 * 15 <= 3 * SCANLINE_BUFFER_LENGTH);
@@ -241,8 +238,7 @@ void harness (void)
         {
             VH_CHECK ("general.heap_block_requested_once_with_room_for_worst_case_carving",
                       vc_nmalloc == 1 && (long) vc_size == 3 * wB + 3 * 15);
-            VH_CHECK ("general.buffers_inside_the_allocation",
-                      vc_buf[0] >= vc_base + vc_k && vc_buf[2] + wB <= vc_base + vc_k + vc_size);
+            VH_CHECK ("general.buffers_inside_the_allocation", vc_geom_done && vc_inside_heap);
             VH_CHECK ("general.heap_block_freed_exactly_once", vc_nfree == 1 && vc_free_ok);
         }
         VH_CHECK ("general.one_row_composed", vc_ncombine == 1 && vc_nwb == 1);
